@@ -61,4 +61,17 @@ theorem c08_gen_empty_name {P : Type} (g : NameBytes.Group P) (cn : List Nat) :
           · cases h
           · split at h <;> cases h
     · intro h; omega
+
+/-- **the nonce-size test** (`certMaker.get`, tls.go:127): the certificate maker refuses exactly the strings that are not
+`nonceSize = 256 / 8 = 32` bytes long — the `Nonce.badSize` of the symbolic model (`certFor … .badSize = none`); what
+`mkNonce` draws, a `[nonceSize]byte`, always passes.  (Falsified by: a test `<` instead of `!=`, another constant on one
+of the two sides.) -/
+theorem c08_gen_nonce_size (nonce : List Nat) :
+    Gen.C08.nonceSize = 32 ∧ (Gen.C08.certMaker_get_badNonce nonce = true ↔ nonce.length ≠ 32) := by
+  refine ⟨rfl, ?_⟩
+  simp only [Gen.C08.certMaker_get_badNonce, Gen.Rt.len, Gen.C08.nonceSize, Int.ofNat_eq_natCast]
+  by_cases h : nonce.length = 32
+  · simp [h]
+  · have : ¬ ((nonce.length : Int) = 32) := by omega
+    simp [h, this]
 end C08
